@@ -42,6 +42,7 @@ impl HolePunch {
     pub fn punch(file: &File, start: usize, length: usize) -> Result<()> {
         #[cfg(anydb_verif)]
         crate::verif::emit(crate::verif::Event::Punch {
+            fd: file.as_raw_fd(),
             off: start,
             len: length,
         });
